@@ -30,13 +30,15 @@ Proof.
   - eexists. split; [vm_compute; reflexivity|]. vm_compute. split; reflexivity.
 Qed.
 
-(* Response.SkipBody = true on the answer to a GET *)
+(* Response.SkipBody = true on the answer to a GET: the head announces 5 body bytes, none is sent; since /repo a4aa200
+   the connection is closed after it (before, the next response was read as this body) *)
 Definition prog_skipbody : list hop := [HSetBody (s2b "hello"); HSkipBody true].
 Lemma refuted_skipbody :
   Forall hop_wf prog_skipbody /\ w_status (want_of prog_skipbody) = 200%Z /\
-  exists wire, serve_one ok d0 cfg0 q_get prog_skipbody = (wire, WrOk, false) /\
-    resp_parse MGet wire = None /\
-    option_map p_body (resp_parse MGet (wire ++ second_wire)) = Some (s2b "HTTP/").
+  exists wire, serve_one ok d0 cfg0 q_get prog_skipbody = (wire, WrOk, true) /\
+    values_of "content-length" (match head_parse wire with Some (_, fs, _) => fs | None => [] end) = [s2b "5"] /\
+    match head_parse wire with Some (_, _, after) => after | None => [1] end = [] /\
+    resp_parse MGet wire = None.
 Proof.
   split; [wf_prog|]. split; [reflexivity|].
   eexists. split; [vm_compute; reflexivity|]. vm_compute. repeat split; reflexivity.
